@@ -53,6 +53,8 @@ func storeAlphabet(o alphabetOpts) []storeOp {
 		// zero weight at an index of its own: the map does not change (no new
 		// extreme index, no empty bin in the iteration)
 		ops = append(ops, opAddW(0, o.idxA[len(o.idxA)-1]+7, 0), opAddBin(0, o.idxA[0]-3, 0))
+		// a large weight next to the small ones (all sums stay exact: 2^20 + k/1024)
+		ops = append(ops, opAddW(0, o.idxA[1], 1<<20))
 	}
 	for _, i := range o.idxB {
 		ops = append(ops, opAdd(1, i))
